@@ -18,7 +18,8 @@ EXPLANATION = (
     "StateMachineAlreadyExists, bad ARNs InvalidArn, bad names InvalidName; (R5) Update assigns only roleArn/definition/loggingConfiguration/"
     "updateDate, each optional field only under a guard that is false for the value `params.get` yields when the field is absent, updateDate "
     "always; Create sets updateDate = creationDate and stores the parsed definition; Delete removes the key; the list actions are "
-    "comprehensions over store.items() with exactly the documented filter. Not decided: equality with a reference model over call sequences.")
+    "comprehensions over store.items() with exactly the documented filter. Not decided: equality with a reference model over call sequences."
+    ' (R9) a definition is stored only if its parsed value is non-empty: between json.loads and the place where the parsed definition is put into the stored record there is a refusing truthiness test (Create has one, Update does not: D77, one key per front end).')
 RULE_TEXT = "obligation = one handler x sink, one handler x path class, one shared action, one lookup; non-trivial = distinct (rule, site)"
 
 FRONTS = ("rest_api", "rest_api_asyncio")
@@ -415,6 +416,8 @@ def r5(chk, ctx):
 
 
 def run(chk, ctx):
+    from . import round5
+    round5.stored_definition_is_nonempty(chk, ctx)
     from . import generic
     generic.definite_assignment(chk, ctx, ['rest_api', 'rest_api_asyncio'], "C10.DA")   # no local is read before it is bound (UnboundLocalError = an arbitrary exception)
     r1(chk, ctx)
